@@ -504,24 +504,25 @@ func existsPathAssuming(fn *ssa.Function, from, target ssa.Instruction, gen func
 	// successor index means "value equals that constant / is false".  Two loads of the same
 	// field of the same object count as the same value (sameValue).
 	type test struct {
-		v       ssa.Value
+		v       int // id of the (value, constant) pair tested
 		zeroIdx int
 	}
 	tests := map[*ssa.BasicBlock]test{}
-	count := map[ssa.Value]int{}
+	count := map[int]int{}
 	type repKey struct {
 		v ssa.Value
 		c string
 	}
 	var reps []repKey
-	canon := func(v ssa.Value, c string) ssa.Value {
-		for _, r := range reps {
+	// one id per (value, constant) pair: `c == '"'` and `c == '#'` are different tests of c
+	canon := func(v ssa.Value, c string) int {
+		for i, r := range reps {
 			if r.c == c && sameValue(r.v, v) {
-				return r.v
+				return i
 			}
 		}
 		reps = append(reps, repKey{v, c})
-		return v
+		return len(reps) - 1
 	}
 	for _, b := range fn.Blocks {
 		v, trueIdx, ok := ifCond(b)
@@ -561,10 +562,10 @@ func existsPathAssuming(fn *ssa.Function, from, target ssa.Instruction, gen func
 	}
 	failed := map[key]bool{}
 	var path []string
-	sigOf := func(as map[ssa.Value]bool) string {
+	sigOf := func(as map[int]bool) string {
 		var ks []string
 		for v, z := range as {
-			ks = append(ks, fmt.Sprintf("%s=%v", v.Name(), z))
+			ks = append(ks, fmt.Sprintf("%d=%v", v, z))
 		}
 		sort.Strings(ks)
 		return strings.Join(ks, ",")
@@ -610,8 +611,8 @@ func existsPathAssuming(fn *ssa.Function, from, target ssa.Instruction, gen func
 		prev *ssa.BasicBlock
 	}
 	failedP := map[pkey]bool{}
-	var dfs func(b, prev *ssa.BasicBlock, as map[ssa.Value]bool, passed bool) bool
-	dfs = func(b, prev *ssa.BasicBlock, as map[ssa.Value]bool, passed bool) bool {
+	var dfs func(b, prev *ssa.BasicBlock, as map[int]bool, passed bool) bool
+	dfs = func(b, prev *ssa.BasicBlock, as map[int]bool, passed bool) bool {
 		k := key{b, sigOf(as), passed}
 		forced := constPhiSucc(b, prev)
 		if forced >= 0 {
@@ -654,7 +655,7 @@ func existsPathAssuming(fn *ssa.Function, from, target ssa.Instruction, gen func
 						continue // infeasible: contradicts an earlier test of the same value
 					}
 				} else {
-					as2 = map[ssa.Value]bool{}
+					as2 = map[int]bool{}
 					for k, v := range as {
 						as2[k] = v
 					}
@@ -668,7 +669,7 @@ func existsPathAssuming(fn *ssa.Function, from, target ssa.Instruction, gen func
 		}
 		return false
 	}
-	initial := map[ssa.Value]bool{}
+	initial := map[int]bool{}
 	for _, v := range assumeNil {
 		for _, ck := range []string{"nil", "bool", "0"} {
 			rv := canon(v, ck)
